@@ -32,6 +32,11 @@ def workloads(r, n, nmax):
         cfg = lpgen.rand_config(r)
         cfg.pop("solution_polishing", None)
         exact = r.random() < 0.3
+        if k % 8 == 3:
+            exact = False
+        if r.random() < 0.15 or k % 8 == 3:
+            # a threshold that differs from the compile-time 1e100: parameter-dependent state must stay in the object
+            cfg["infty"] = r.choice(["1e20", "1e30", "1e50"])
         if exact:
             cfg = {a: b for a, b in cfg.items() if a in ("simplifier", "scaler")}
             if r.random() < 0.5:
@@ -66,6 +71,64 @@ def exact_heavy(r, k0, count, nmax):
         txt += p.text(wid) + "\nWORK %s exact %s\n" % (wid, lpgen.cfg_text(cfg))
         ids.append((wid, True, cfg))
     return txt, ids
+
+
+ALLOWED_STATIC = [
+    (r"^__libc_single_threaded", "glibc flag that flips when the first thread starts"),
+    (r"^completed\.0$|^std::__ioinit$|^std::(cout|cerr|clog|cin)@|^std(out|err|in)@", "C / C++ runtime objects copied into the executable"),
+    (r"^boost::multiprecision::backends::detail::mpfr_float_imp<.*>::get_global_default_(precision|options)\(\)::val$",
+     "Boost.Multiprecision's process-wide default precision: BP::default_precision(n) (precision boosting) stores the value for threads "
+     "created later as well; SoPlex sets the precision explicitly before every boosted solve (outside the model, see DESIGN C18)"),
+    (r"^vf::", "function-local static of harness/common.hpp"),
+]
+
+
+def static_writes(ck, exe, out, txt):
+    """STATIC lines of the harness: byte ranges of the executable's .data/.bss that differ between two snapshots.  Every range
+    is mapped to its symbol (nm); allowed are: objects that were initialised in that phase (their guard variable changed
+    too: function-local statics on first use), and the short list ALLOWED_STATIC.  Anything else is an object with static
+    storage duration that is written after its initialisation - shared by all solver objects of the process."""
+    rc, nm, err = vlib.sh(["nm", "-n", "-S", "-C", "--defined-only", exe], timeout=300)
+    syms, anchors = [], {}
+    for l in nm.splitlines():
+        t = l.split(None, 3)
+        if len(t) == 4 and len(t[1]) == 16 and t[2] in "bBdDuVvsSgG":
+            syms.append((int(t[0], 16), int(t[1], 16), t[3]))
+        elif len(t) == 3 and t[2] in ("__data_start", "__bss_start"):
+            anchors[t[2]] = int(t[0], 16)
+    for l in out.splitlines():
+        if not l.startswith("STATIC "):
+            continue
+        d = dict(x.split("=", 1) for x in l.split()[1:] if "=" in x)
+        if "__data_start" not in anchors:
+            ck.count("static:no-anchor")
+            continue
+        off = int(d["data"], 16) - anchors["__data_start"]
+        changed = []
+        for rg in d.get("ranges", "").split(","):
+            if not rg:
+                continue
+            a, n = rg.split(":")
+            a, n = int(a, 16) - off, int(n)
+            hit = [nme for (sa, sz, nme) in syms if sa < a + n and a < sa + max(sz, 1)]
+            changed += hit or ["<no symbol at %#x>" % a]
+        changed = sorted(set(changed))
+        ck.count("static:%s:changed-objects" % d["phase"], len(changed))
+        guards = set(c[len("guard variable for "):] for c in changed if c.startswith("guard variable for "))
+        for c in changed:
+            if c.startswith("guard variable for "):
+                if d["phase"] == "first-sequential-pass":
+                    continue
+            base = c[len("reference temporary #0 for "):] if c.startswith("reference temporary #") else c
+            if base in guards and d["phase"] == "first-sequential-pass":
+                continue                     # initialised on first use in this phase
+            if any(re.search(rx, c) for rx, why in ALLOWED_STATIC):
+                ck.count("static:allowed:" + c[:60])
+                continue
+            ck.violation("static-object-written-after-initialisation:%s" % re.sub(r"<.*>", "<>", c)[:90],
+                         "the static-storage object '%s' was written during the %s although it was already initialised: every solver object of the "
+                         "process shares it (the inventory obligation C18_shared_state_immutable classifies it as written during initialisation only)" % (c, d["phase"]),
+                         {"input": txt, "phase": d["phase"], "changed": changed, "theorem": "C18_shared_state_immutable (init_only classification validated dynamically)"})
 
 
 def tsan_reports(err):
@@ -103,6 +166,7 @@ def main():
     rc, out, err = lpgen.run_harness(plain, txt, "C18", timeout=3000)
     if rc != 0:
         ck.violation("crash:plain", "the multi-threaded workload crashed (rc=%d): %s" % (rc, err[-400:]), {"kind": "crash", "input": txt})
+    static_writes(ck, plain, out, txt)
     for l in out.splitlines():
         if not l.startswith("RES "):
             continue
